@@ -286,3 +286,34 @@ func (s *ScriptChooser) Choose(p []*Parked) int {
 }
 
 func (e Event) String() string { return fmt.Sprintf("%s#%d g%d %s %q", e.Kind, e.ID, e.G, e.Stream, e.Data) }
+
+// StarveChooser is a random chooser that keeps one randomly picked goroutine parked for as
+// long as anything else can be released: long windows in which one task is stuck mid-command
+// while the others race ahead are where ordering bugs show.
+type StarveChooser struct {
+	R      interface{ Intn(int) int }
+	victim int64
+	picked bool
+	After  int // start starving after this many releases
+	n      int
+}
+
+func (s *StarveChooser) Choose(p []*Parked) int {
+	s.n++
+	if !s.picked && s.n > s.After {
+		s.victim = p[s.R.Intn(len(p))].G
+		s.picked = true
+	}
+	if s.picked {
+		var others []int
+		for i, pk := range p {
+			if pk.G != s.victim {
+				others = append(others, i)
+			}
+		}
+		if len(others) > 0 {
+			return others[s.R.Intn(len(others))]
+		}
+	}
+	return s.R.Intn(len(p))
+}
